@@ -243,10 +243,14 @@ class LedgerOracle(Oracle):
             self.bars[bar] = {"sup": rs, "debt": rb, "wallet": self._wallet(sim)}
 
     def before_op(self, sim, op):
+        if op.get("m") not in (None, "aave0"):
+            return  # an operation on the second pool: not this oracle\'s market
         self.w0 = self._wallet(sim)
         self.a0 = len(sim.actuator.actions)
 
     def after_op(self, sim, op, outcome):
+        if op.get("m") not in (None, "aave0"):
+            return
         kind = WRITE_KINDS.get(op["op"])
         status = outcome["status"]
         i = outcome["i"]
